@@ -11,7 +11,7 @@ def unwrap(x):
 
 def is_blank_text(x):
     from TexSoup.data import TexText
-    if isinstance(x, TexText):
+    while isinstance(x, TexText):
         x = x._text
     return isinstance(x, str) and x.isspace()
 
@@ -23,7 +23,9 @@ def is_text(x):
 
 def leaf_token(x):
     from TexSoup.data import TexText
-    return x._text if isinstance(x, TexText) else x
+    while isinstance(x, TexText):
+        x = x._text
+    return x
 
 
 def content_list(expr):
@@ -63,7 +65,7 @@ def key(x):
     from TexSoup.data import TexNode, TexText
     if isinstance(x, TexNode):
         x = x.expr
-    if isinstance(x, TexText):
+    while isinstance(x, TexText):      # setters may wrap a text twice
         x = x._text
     return id(x)
 
